@@ -66,6 +66,7 @@ func c11Build() *c11World {
 	cfg.Schedule.StoreLimit = map[uint64]config.StoreLimitConfig{}
 	cfg.Schedule.HotRegionCacheHitsThreshold = 3
 	cfg.Schedule.LeaderScheduleLimit = 4
+	cfg.Schedule.SchedulerMaxWaitingOperator = 5
 	cfg.Schedule.RegionScheduleLimit = 64
 	cfg.Schedule.TolerantSizeRatio = 0
 	cfg.Schedule.LeaderSchedulePolicy = "count"
